@@ -64,6 +64,9 @@ func registry() map[string]*Rule {
 		{Name: "NORM1", Floor: 1, Run: ruleNORM1, Doc: "Where(x) in the root package receives only the asserted result of the literal-normalising visitor applied to the query's own Criteria()"},
 		{Name: "RNG1", Floor: 4, Run: ruleRNG1, Doc: "a value stored into a field of index.Range is computed only from the same field of other ranges (including short-circuit conditions)"},
 		{Name: "ADP5", Floor: 1, Run: ruleADP5, Doc: "a delete-while-iterating scan (Index.Drop) is not preceded by another store write in the same function/transaction (bbolt and badger diverge otherwise)"},
+		{Name: "OPS4", Floor: 20, Run: ruleOPS4, Doc: "abstract evaluation with injected operand results: And/Or/Not return their truth tables on every path; Gt/GtEq/Lt/LtEq/Eq apply the right relation to the three-way comparison result"},
+		{Name: "OPS5", Floor: 30, Run: ruleOPS5, Doc: "abstract evaluation of UnaryCriteria.Satisfy over every equality pattern between listed operands and document values (lists/arrays of length 1-2): In = some equal, Contains = every listed element found, Eq = present and equal, Exists = present"},
+		{Name: "RNG2", Floor: 2, Run: ruleRNG2, Doc: "specialised on the direction flag, the conditions inside the emission loop of a range scan read only the far bound's Range fields"},
 	}
 	m := map[string]*Rule{}
 	for _, r := range rules {
@@ -196,14 +199,14 @@ func propertyTable() map[string]*Property {
 		},
 		"C16": {
 			Technique:   tSSA + "taint-style dataflow of Compare operands, operator constant tables, builder/evaluator type agreement",
-			Rules:       []string{"CMP4", "OPS1", "OPS2", "OPS3", "CMP5", "NORM1"},
-			Explanation: "Decides structural clauses of C16: every operand of the comparison is a document value or has passed through Normalize, which is the only mechanism behind 'a literal yields the same result whatever Go numeric type it was supplied as' (CMP4, CMP5); every constructed operator has an evaluation case and routed operators are covered by the inner switch (OPS1); the Go type each builder stores is the type the evaluator asserts (OPS2); Neq and NotExists are defined as Not() of Eq and Exists on the same arguments (OPS3).",
-			NotDecided:  "The truth tables of And/Or/Not, In and Contains themselves (statements about values; checking their shape would be a frozen-fragment proxy, so it is not done).",
+			Rules:       []string{"CMP4", "OPS1", "OPS2", "OPS3", "OPS4", "OPS5", "CMP5", "NORM1"},
+			Explanation: "Decides structural clauses of C16: every operand of the comparison is a document value or has passed through Normalize, which is the only mechanism behind 'a literal yields the same result whatever Go numeric type it was supplied as' (CMP4, CMP5); every constructed operator has an evaluation case and routed operators are covered by the inner switch (OPS1); the Go type each builder stores is the type the evaluator asserts (OPS2); Neq and NotExists are defined as Not() of Eq and Exists on the same arguments (OPS3); BinaryCriteria/NotCriteria.Satisfy, abstractly evaluated for every combination of operand results, return the And/Or/Not truth tables on every path, and Gt/GtEq/Lt/LtEq/Eq apply the right relation to the three-way comparison result (OPS4: these finite tables are decided completely); the criteria used for filtering is the caller's criteria with literals normalised, not a rewritten tree (NORM1); In, Contains, Eq and Exists follow their definitions for every equality pattern between the listed operands and the document values, for operand lists and arrays of length 1 and 2 (OPS5, bounded).",
+			NotDecided:  "In/Contains beyond operand lists and arrays of length 2 (OPS5 is bounded), Like (regular expressions), the absent-field-as-nil convention of the ordering operators. The truth tables of And/Or/Not and the relation each ordering operator applies to the comparison result ARE decided (OPS4, by abstract evaluation over all operand outcomes).",
 			Assumptions: commonAssumptions,
 		},
 		"C17": {
 			Technique:   tSSA + "key-template analysis of seek targets and scan bounds, error and callback-loop rules in the range index",
-			Rules:       []string{"KEY1~^index\\.", "KEY2", "KEY3", "KEY5", "RNG1", "ERR1~^index\\.", "ERR3~^index\\."},
+			Rules:       []string{"KEY1~^index\\.", "KEY2", "KEY3", "KEY5", "RNG1", "RNG2", "ERR1~^index\\.", "ERR3~^index\\."},
 			Explanation: "Decides structural clauses of C17: a range scan or full iteration is bounded by a prefix that covers exactly the index's own entries, add and remove use one layout (KEY1-KEY3); specialised on reverse = true, every seek target carries the 0xFF upper sentinel, without which an inclusive upper bound loses its entries in descending scans (KEY5); seek and item errors are propagated (ERR1); the scan stops when the consumer asks and the stop does not escape (ERR3).",
 			NotDecided:  "Bound arithmetic: inclusive/exclusive ends, emptiness and intersection of ranges over values, order of the yielded ids.",
 			Assumptions: commonAssumptions,
